@@ -703,10 +703,38 @@ func rdfDrawDataset(c *Ctx) ([]*rdf.Statement, string) {
 	var ds []*rdf.Statement
 	shape := "none"
 	if nb > 0 {
-		shape = []string{"random", "cycle", "star", "twins", "path", "undirected-cycle", "anchored"}[t.Choose(simrt.KWorkload, 7)]
+		shape = []string{"random", "cycle", "star", "twins", "path", "undirected-cycle", "anchored", "cycle-with-hubs", "prism", "bipartite"}[t.Choose(simrt.KWorkload, 10)]
 	}
 	p := rdfPreds[0]
 	switch shape {
+	// larger highly symmetric datasets (up to 10 blank nodes): the n-degree
+	// hashing has to try several permutations at depth; invariance under
+	// reordering and relabelling is still checked, the brute-force
+	// non-isomorphism oracle is skipped above 7 blank nodes
+	case "cycle-with-hubs":
+		k := 2 * (2 + t.Choose(simrt.KWorkload, 3)) // cycle of 4, 6 or 8
+		hubs := 1 + t.Choose(simrt.KWorkload, 2)
+		nb = k + hubs
+		for i := 0; i < k; i++ {
+			ds = append(ds, rdfStmt(bl(i), p, bl((i+1)%k), ""))
+			ds = append(ds, rdfStmt(bl(i), rdfPreds[1], bl(k+i%hubs), ""))
+		}
+	case "prism":
+		k := 3 + t.Choose(simrt.KWorkload, 3) // two k-cycles joined rung by rung
+		nb = 2 * k
+		for i := 0; i < k; i++ {
+			ds = append(ds, rdfStmt(bl(i), p, bl((i+1)%k), ""))
+			ds = append(ds, rdfStmt(bl(k+i), p, bl(k+(i+1)%k), ""))
+			ds = append(ds, rdfStmt(bl(i), rdfPreds[1], bl(k+i), ""))
+		}
+	case "bipartite":
+		a, b := 2+t.Choose(simrt.KWorkload, 3), 2+t.Choose(simrt.KWorkload, 3)
+		nb = a + b
+		for i := 0; i < a; i++ {
+			for j := 0; j < b; j++ {
+				ds = append(ds, rdfStmt(bl(i), p, bl(a+j), ""))
+			}
+		}
 	case "cycle":
 		for i := 0; i < nb; i++ {
 			ds = append(ds, rdfStmt(bl(i), p, bl((i+1)%nb), ""))
